@@ -2,7 +2,10 @@ module github.com/corazawaf/coraza/v3/verifharness
 
 go 1.25.0
 
-require github.com/corazawaf/coraza/v3 v3.0.0
+require (
+	github.com/corazawaf/coraza-coreruleset v0.0.0-20240226094324-415b1017abdc
+	github.com/corazawaf/coraza/v3 v3.0.0
+)
 
 require (
 	github.com/corazawaf/libinjection-go v0.3.2 // indirect
